@@ -88,3 +88,25 @@ def check_agrees_with_lookup(inp):
             if got != want:
                 bad.append({"entries": order, "key": i, "check": got, "lookup_reports_that_key": want})
     return {"violates": bool(bad), "detail": bad[:3]}
+
+
+def lookup_follows_the_entries(inp):
+    """one long-lived HostKeys object: a name is looked up while unknown, the host is then recorded (under its plain name,
+    and under its hashed name as OpenSSH's HashKnownHosts does), and looked up again - the entry must be found, and
+    check() must tell the recorded key from another one"""
+    from paramiko.hostkeys import HostKeys
+    from paramiko import ECDSAKey
+    k1, k2 = ECDSAKey.generate(), ECDSAKey.generate()
+    bad = []
+    for how in ("plain", "hashed"):
+        hk = HostKeys()
+        name = "demo.example.com"
+        if hk.lookup(name) is not None:
+            bad.append({"why": "unknown host found"})
+        hk.add(name if how == "plain" else HostKeys.hash_host(name), k1.get_name(), k1)
+        got = hk.lookup(name)
+        if got is None or got.get(k1.get_name()) is None:
+            bad.append({"recorded_as": how, "why": "lookup() after add() still says the host is unknown"})
+        elif not hk.check(name, k1) or hk.check(name, k2):
+            bad.append({"recorded_as": how, "why": "check() does not tell the recorded key from another one"})
+    return {"violates": bool(bad), "detail": bad[:3]}
